@@ -219,6 +219,9 @@ func ruleR26() *Rule {
 							if leadsToFailureReturn(s, l, 0, map[*ssa.BasicBlock]bool{}) {
 								continue
 							}
+							if pureSearchLoop(c.p, l) {
+								continue // a look-up of the first element with some quality: nothing is processed here
+							}
 							bad = append(bad, "early exit from the loop: "+describeInstr(c.p, b.Instrs[len(b.Instrs)-1])+" -> block "+fmt.Sprint(s.Index))
 						}
 					}
@@ -229,6 +232,36 @@ func ruleR26() *Rule {
 					c.add(statusOf(len(bad) == 0), key, c.p.instrPos(l.header.Instrs[len(l.header.Instrs)-1]),
 						fmt.Sprintf("the loop over %s in %s processes every element: it is left early only by returning an error", t.param, name),
 						"the loop can stop before the end of the list without reporting an error: the remaining elements are silently ignored", t.props, bad)
+					r26Flags(c, l, key, name, t.param, t.props)
+				}
+				// flags carried round loops over tables derived from the list (the segments in focus)
+				if !strings.Contains(t.param, ":") {
+					var elem types.Type
+					for _, p := range fn.Params {
+						if canonParamName(p) == t.param {
+							if sl, ok := p.Type().Underlying().(*types.Slice); ok {
+								elem = sl.Elem()
+							}
+						}
+					}
+					k := 0
+					for _, l := range naturalLoops(fn) {
+						rs := l.rangedSlice()
+						if rs == nil || elem == nil {
+							continue
+						}
+						if p, ok := root(rs).(*ssa.Parameter); ok && canonParamName(p) == t.param {
+							continue // judged above
+						}
+						if sl, ok := rs.Type().Underlying().(*types.Slice); !ok || !types.Identical(sl.Elem(), elem) {
+							continue
+						}
+						if _, isPtr := elem.(*types.Pointer); !isPtr {
+							continue
+						}
+						k++
+						r26Flags(c, l, fmt.Sprintf("%s/range-derived-%s#%d", name, t.param, k), name, "a table derived from "+t.param, t.props)
+					}
 				}
 				if strings.HasPrefix(t.param, "count:") {
 					// `for i < n` counted loop over a decoded count: must start at 0 and only leave on error
@@ -280,6 +313,279 @@ func ruleR26() *Rule {
 			}
 		},
 	}
+}
+
+// pureSearchLoop: the loop changes nothing but its own local variables (no store, no map update, no
+// call that could): leaving it early skips no processing, it is how a search ends.
+func pureSearchLoop(p *Program, l *natLoop) bool {
+	var pure func(f *ssa.Function, depth int) bool
+	pure = func(f *ssa.Function, depth int) bool {
+		if f == nil || depth > 2 {
+			return false
+		}
+		if f.Pkg != nil && strings.Contains(f.Pkg.Pkg.Path(), "roaring") {
+			switch f.Name() {
+			case "GetCardinality", "IsEmpty", "Contains":
+				return true
+			}
+			return false
+		}
+		if !p.InZap(f) || len(f.Blocks) == 0 {
+			return false
+		}
+		ok := true
+		eachInstr(f, func(_ *ssa.BasicBlock, in ssa.Instruction) {
+			switch x := in.(type) {
+			case *ssa.Store, *ssa.MapUpdate, *ssa.Send, *ssa.Go, *ssa.Defer, *ssa.Panic:
+				ok = false
+			case *ssa.Call:
+				if _, isB := x.Call.Value.(*ssa.Builtin); isB {
+					return
+				}
+				if !pure(x.Call.StaticCallee(), depth+1) {
+					ok = false
+				}
+			}
+		})
+		return ok
+	}
+	for b := range l.blocks {
+		for _, in := range b.Instrs {
+			switch x := in.(type) {
+			case *ssa.Store, *ssa.MapUpdate, *ssa.Send, *ssa.Go, *ssa.Defer, *ssa.Panic:
+				return false
+			case *ssa.Call:
+				if _, isB := x.Call.Value.(*ssa.Builtin); isB {
+					continue
+				}
+				if !pure(x.Call.StaticCallee(), 0) {
+					return false
+				}
+			}
+		}
+	}
+	return true
+}
+
+// r26Flags (R26c ACCUMULATING-FLAG): a boolean that is carried round a loop over an input list and read
+// after it summarises the whole list ("some segment has…", "all segments agree…"). Every value it takes at
+// the end of an iteration must then be its previous value, a constant, or a combination that involves
+// its previous value; an iteration that overwrites it with a fresh per-element answer makes the last
+// element decide for all.
+func r26Flags(c *RuleCtx, l *natLoop, key, name, param string, props []string) {
+	for _, in := range l.header.Instrs {
+		ph, ok := in.(*ssa.Phi)
+		if !ok {
+			break
+		}
+		if b, ok := ph.Type().Underlying().(*types.Basic); !ok || b.Kind() != types.Bool {
+			continue
+		}
+		// read after the loop (or outside it in any way)?
+		readOutside := false
+		var seenU = map[ssa.Value]bool{}
+		var uses func(v ssa.Value)
+		uses = func(v ssa.Value) {
+			if seenU[v] {
+				return
+			}
+			seenU[v] = true
+			for _, r := range *v.Referrers() {
+				if !l.blocks[r.Block()] {
+					readOutside = true
+					return
+				}
+				if p2, ok := r.(*ssa.Phi); ok {
+					uses(p2)
+				}
+			}
+		}
+		uses(ph)
+		if !readOutside {
+			continue
+		}
+		var fresh []string
+		seen := map[ssa.Value]bool{}
+		var derives func(v ssa.Value) bool
+		derives = func(v ssa.Value) bool {
+			if v == ssa.Value(ph) || seen[v] {
+				return true
+			}
+			seen[v] = true
+			switch x := v.(type) {
+			case *ssa.Const:
+				return true
+			case *ssa.Phi:
+				if !l.blocks[x.Block()] {
+					return false
+				}
+				// `flag || answer` / `flag && answer`: a short-circuit phi one of whose conditions is the flag
+				if x.Comment == "||" || x.Comment == "&&" {
+					for _, pr := range x.Block().Preds {
+						if iff, ok := pr.Instrs[len(pr.Instrs)-1].(*ssa.If); ok && mentions(iff.Cond, ph, l, 0) {
+							return true
+						}
+					}
+				}
+				for _, e := range x.Edges {
+					if !derives(e) {
+						return false
+					}
+				}
+				return true
+			case *ssa.BinOp:
+				if x.Op == token.OR || x.Op == token.AND || x.Op == token.LOR || x.Op == token.LAND {
+					return mentions(x.X, ph, l, 0) || mentions(x.Y, ph, l, 0)
+				}
+			}
+			return false
+		}
+		for i, pr := range l.header.Preds {
+			if !l.blocks[pr] {
+				continue
+			}
+			if !derives(ph.Edges[i]) {
+				fresh = append(fresh, "at the end of an iteration it holds "+valText(c.p, ph.Edges[i])+", which does not involve its previous value")
+			}
+		}
+		vn := ph.Comment
+		if vn == "" {
+			vn = ph.Name()
+		}
+		c.add(statusOf(len(fresh) == 0), key+"/flag/"+vn, c.p.instrPos(ph),
+			fmt.Sprintf("the flag %s that %s carries round its loop over %s and reads afterwards accumulates over the elements", vn, name, param),
+			"the flag is overwritten by each element's own answer: the last element decides for the whole list", props, fresh)
+	}
+}
+
+func valText(p *Program, v ssa.Value) string {
+	if in, ok := v.(ssa.Instruction); ok {
+		return describeInstr(p, in)
+	}
+	return v.Name() + " (" + v.String() + ")"
+}
+
+// mentions: v is ph or is computed (inside the loop, through phis and boolean operators) from ph
+func mentions(v ssa.Value, ph *ssa.Phi, l *natLoop, depth int) bool {
+	if v == ssa.Value(ph) {
+		return true
+	}
+	if depth > 6 {
+		return false
+	}
+	switch x := v.(type) {
+	case *ssa.Phi:
+		for _, e := range x.Edges {
+			if mentions(e, ph, l, depth+1) {
+				return true
+			}
+		}
+	case *ssa.BinOp:
+		return mentions(x.X, ph, l, depth+1) || mentions(x.Y, ph, l, depth+1)
+	case *ssa.UnOp:
+		return mentions(x.X, ph, l, depth+1)
+	}
+	return false
+}
+
+// holdsNoRefs: values of this type are plain data (copying one shares nothing with the original)
+func holdsNoRefs(t types.Type) bool {
+	switch x := t.Underlying().(type) {
+	case *types.Basic:
+		return x.Kind() != types.UnsafePointer
+	case *types.Array:
+		return holdsNoRefs(x.Elem())
+	case *types.Struct:
+		for i := 0; i < x.NumFields(); i++ {
+			if !holdsNoRefs(x.Field(i).Type()) {
+				return false
+			}
+		}
+		return true
+	}
+	return false
+}
+
+// readOnlyReceiver: the method never stores through its receiver, never stores the receiver anywhere
+// and hands it only to methods with the same property.
+func readOnlyReceiver(f *ssa.Function, mutating map[*ssa.Function]bool, depth int) bool {
+	if f == nil || len(f.Blocks) == 0 || f.Signature.Recv() == nil || len(f.Params) == 0 || depth > 3 {
+		return false
+	}
+	recv := f.Params[0]
+	for _, r := range *recv.Referrers() {
+		switch x := r.(type) {
+		case *ssa.DebugRef:
+		case *ssa.FieldAddr:
+			if !onlyReadThrough(x, 0) {
+				return false
+			}
+		case *ssa.BinOp:
+		case ssa.CallInstruction:
+			g := staticCallee(x)
+			if g == nil || mutating[g] || len(x.Common().Args) == 0 || x.Common().Args[0] != ssa.Value(recv) || !readOnlyReceiver(g, mutating, depth+1) {
+				return false
+			}
+		default:
+			return false
+		}
+	}
+	return true
+}
+
+// onlyReadThrough: the address is only loaded from, and what is loaded is only measured, compared,
+// indexed for reading or sliced for reading.
+func onlyReadThrough(addr ssa.Value, depth int) bool {
+	if depth > 4 {
+		return false
+	}
+	for _, r := range *addr.Referrers() {
+		switch x := r.(type) {
+		case *ssa.DebugRef:
+		case *ssa.UnOp:
+			if x.Op != token.MUL {
+				return false
+			}
+			if holdsNoRefs(x.Type()) {
+				continue
+			}
+			for _, r2 := range *x.Referrers() {
+				switch y := r2.(type) {
+				case *ssa.DebugRef, *ssa.BinOp:
+				case *ssa.Call:
+					if bi, ok := y.Call.Value.(*ssa.Builtin); !ok || (bi.Name() != "len" && bi.Name() != "cap") {
+						return false
+					}
+				case *ssa.IndexAddr:
+					if !onlyReadThrough(y, depth+1) {
+						return false
+					}
+				case *ssa.Slice:
+					for _, r3 := range *y.Referrers() {
+						switch r3.(type) {
+						case *ssa.DebugRef:
+						default:
+							return false
+						}
+					}
+				case *ssa.Index, *ssa.Lookup, *ssa.Range:
+				default:
+					return false
+				}
+			}
+		case *ssa.FieldAddr:
+			if !onlyReadThrough(x, depth+1) {
+				return false
+			}
+		case *ssa.IndexAddr:
+			if !onlyReadThrough(x, depth+1) {
+				return false
+			}
+		default:
+			return false
+		}
+	}
+	return true
 }
 
 // ---------------------------------------------------------------------------
@@ -1147,6 +1453,9 @@ func ruleR4() *Rule {
 						if _, fld, base, ok := fieldOf(st.Addr); ok && root(base) != ssa.Value(recv) {
 							// value copied from the receiver: only immutable parts may be shared
 							if sn2, f2, b2, ok := loadedField(st.Val); ok && sn2 == "docValueReader" && root(b2) == ssa.Value(recv) {
+								if holdsNoRefs(st.Val.Type()) {
+									return // a copy of a plain value shares nothing
+								}
 								switch f2 {
 								case "field", "chunkOffsets", "dvDataLoc":
 								default:
@@ -1335,8 +1644,18 @@ func ruleR4() *Rule {
 								if f != nil && namedFn(f, "docValueReader.size") && x.Common().Args[0] == v {
 									continue
 								}
+								// any other method of the reader that only reads its receiver
+								if f != nil && x.Common().Args[0] == v && !mutating[f] && readOnlyReceiver(f, mutating, 0) {
+									continue
+								}
 								okc = false
 								w = append(w, describeInstr(p, r))
+							case *ssa.FieldAddr:
+								// a field of the shared reader is read (never written through)
+								if !onlyReadThrough(x, 0) {
+									okc = false
+									w = append(w, describeInstr(p, r))
+								}
 							default:
 								okc = false
 								w = append(w, describeInstr(p, r))
